@@ -27,6 +27,11 @@ CLAIMED = {
          "ALL scope chains up to depth 3 over six propagation modes x two outcomes, for a shared context and for a fresh context carrying the xid, plus sampled two-child trees; per logical transaction the begin and the single decision by its launcher, xid/role seen by every callback, precondition failures of Mandatory/Never, and integrity of the enclosing context after each inner scope are compared with the model. Integrations are coupled through the real metadata/http/attachment carriers with generated xid strings and every accepted key spelling.",
          "Reference interpreter in harness/checks/c07.go encodes the documented semantics; child errors are not propagated by parents (independent outcomes).",
          "DESIGN.md §4 C07"),
+ "C14": ("exploration",
+         "runtime monitor + Go race detector: concurrent SendSyncRequest callers in a -race client child against a scripted fake coordinator whose replies identify the request they answer; verif-tagged accessors for pending futures; goroutine-dump monitor for blocked response delivery",
+         "N in {2..512} concurrent callers under reply permutations, delays across heart-beats, sequential and back-to-back duplicates, drops, unsolicited responses, phase-two requests with colliding ids, late replies (thorough) and a connection reset; each caller must get exactly the response carrying its own name and frame id or a timeout error; after every script a fresh request must complete, no goroutine may be parked in response delivery and (at the end) no message future may remain.",
+         "Quiescence is logical (callers returned + round trip). Race reports are attributed to C20. The reset scenario assumes getty's reconnect.",
+         "DESIGN.md §4 C14"),
 }
 
 NOT_YET = "check not implemented yet in this revision of the framework (work in progress; see DESIGN.md §4 for the planned monitor)"
